@@ -39,7 +39,7 @@ func runC10(c *Ctx) {
 	c.Rule("R10.2", "E5", "admission tests, insertion and announcements share one critical section of Group.mu", 3)
 	c.Rule("R10.3", "E5/E3", "autoLockKick always runs under Group.mu; in DelClient in the critical section of the removal, on every path", 3)
 	c.Rule("R10.4", "E3", "announcements only after the insertion; no refusal after it", 4)
-	c.Rule("R10.5", "E2", "autoLockKick locks only under autolock, unlocked, no operator present; add() calls it on every successful path", 3)
+	c.Rule("R10.5", "E2", "autoLockKick locks exactly under autolock, unlocked, no operator present; add() calls it on every successful path", 4)
 	if ac == nil || dc == nil || alk == nil || add == nil {
 		c.Unknown("R10.1", "anchors", 0, "group.AddClient / DelClient / autoLockKick / add no longer resolve")
 		return
@@ -419,6 +419,42 @@ func runC10(c *Ctx) {
 	})
 	if !found {
 		c.Bad("R10.5", "autoLockKick: lock condition", alk.Pos(), "autoLockKick never sets g.locked: autolock does not lock")
+	}
+	// completeness: while autolock applies (Autolock, not yet locked) the
+	// function gives up only because an operator is present
+	{
+		P := func(f *Fact) bool {
+			switch {
+			case f.Op == "true" && f.Pos && mentionsField(f.A, fAL):
+				return true
+			case f.Op == "eq" && f.Pos && f.B != nil && ((f.A.K == 'n' && mentionsField(f.B, fLocked)) || (f.B.K == 'n' && mentionsField(f.A, fLocked))):
+				return true
+			}
+			if _, is := isContains(f, "op"); is && !f.Pos {
+				return true
+			}
+			return false
+		}
+		var lockStore ast.Node
+		ast.Inspect(alk.Body(), func(n ast.Node) bool {
+			if as, ok := n.(*ast.AssignStmt); ok && len(as.Lhs) == 1 {
+				if t := aff.term(as.Lhs[0]); t != nil && t.K == 'f' && t.Obj == types.Object(fLocked) {
+					lockStore = as
+				}
+			}
+			return true
+		})
+		var early []string
+		for _, ret := range aff.Returns() {
+			if lockStore != nil && aff.ReachableFrom(lockStore, ret) {
+				continue
+			}
+			if reach, _ := aff.ReachableNotRefuting(ret, P); reach {
+				early = append(early, p.PosStr(ret.Pos()))
+			}
+		}
+		c.Check(lockStore != nil && len(early) == 0, "R10.5", "autoLockKick: gives up only when an operator is present or autolock does not apply", alk.Pos(),
+			"no return before the lock is reachable with Autolock set, the group unlocked and no operator found", "autoLockKick can return (at "+strings.Join(early, ", ")+") without locking although autolock applies and no operator is present (e.g. an empty group): a non-operator is admitted to an operator-less autolock group")
 	}
 	// the members inspected are the group's current members
 	okSnap := false
